@@ -1267,9 +1267,14 @@ func (p *Path) spawn(fnv Value, args []Value, c *ssa.CallCommon) {
 		}
 	}()
 	saved := p.curThread
-	p.curThread = p.goroutines
+	child := p.goroutines
+	if p.rs != nil && p.rs.active {
+		child = saved*100 + p.goroutines
+		p.rs.threads[child] = &threadMeta{parent: saved, parentSeq: p.rs.seq[saved]}
+	}
+	p.curThread = child
+	defer func() { p.curThread = saved }()
 	p.callValue(fnv, args, c)
-	p.curThread = saved
 }
 
 func (p *Path) builtin(name string, args []Value, c *ssa.CallCommon) Value {
